@@ -78,7 +78,7 @@ def writer_regex(m, cname, meth="to_sdmx_string"):
 def rule_r1(chk, m):
     chk.rule("C11-R1", "L(to_sdmx_string) is a subset of L(detection pattern) with every string of the declared length; detection "
              "entries that can both see a string of one length have disjoint languages; Frequency.from_sdmx_string tests length and fullmatch",
-             floor=12)
+             floor=12, shape_independent=True)
     tab = m.assign("SDMX_REXP_FORMATS")
     chk.saw(m, "SDMX_REXP_FORMATS")
     # the table by evaluation of the module-level constants (a literal, or built from rows / fragments)
